@@ -53,7 +53,7 @@ CLOCKS = [("at 10:45", (10, 45, 0, 0)), ("14:00", (14, 0, 0, 0)), ("at 2 pm", (1
           ("at 12:00 am", (0, 0, 0, 0)), ("12:30 pm", (12, 30, 0, 0)), ("00:00", (0, 0, 0, 0)), ("at 1:02:03", (1, 2, 3, 0))]
 CLOCK_PHRASES = ["2 days ago", "in 3 weeks", "yesterday", "tomorrow", "1 month ago", "in 1 year", "today", "in 2 hours"]
 NOW_ZONES = ["UTC", "America/New_York", "Asia/Kolkata", "Asia/Kathmandu", "Australia/Lord_Howe", "Pacific/Kiritimati",
-             "Pacific/Pago_Pago", "Europe/London", "America/St_Johns", "+0530", "-1200", "EST", "UTC+05:45", "GMT+1", "EST5EDT"]
+             "Pacific/Pago_Pago", "Europe/London", "America/St_Johns", "+0530", "-1200", "EST", "UTC+05:45", "GMT+1"]
 NOW_ZONES_T = NOW_ZONES + ["Asia/Tokyo", "Europe/Moscow", "America/Sao_Paulo", "Africa/Cairo", "Pacific/Auckland", "Pacific/Chatham",
                            "America/Los_Angeles", "Asia/Tehran", "Australia/Adelaide", "Atlantic/Azores", "America/Caracas",
                            "Asia/Yangon", "+1400", "UTC+05:45", "CET", "JST", "Asia/Dhaka", "Europe/Paris", "America/Denver",
@@ -131,13 +131,15 @@ def _zone(name):
     try:
         return pytz.timezone(name)
     except pytz.UnknownTimeZoneError:
+        import re
+        m = re.match(r"^(?:UTC|GMT)?([+-])(\d{1,2})(?::?(\d{2}))?$", name)
+        if m:
+            mins = int(m.group(2)) * 60 + int(m.group(3) or 0)
+            return pytz.FixedOffset(mins if m.group(1) == "+" else -mins)
         from dateparser.timezones import timezone_info_list
-        n = name
-        if n[0] in "+-":
-            n = "UTC" + n[0] + n[1:3] + ":" + n[3:5]
         for blk in timezone_info_list:
             for nm, sec in blk["timezones"]:
-                if nm.replace("\\", "") == n:
+                if nm.replace("\\", "") == name:
                     return pytz.FixedOffset(sec // 60)
         raise
 
